@@ -32,6 +32,8 @@ def run(ctx):
             tree = [dict(p='S', k='dir', mode=0o755),
                     dict(p='S/f', k='file', mode=mode, uid=uid, gid=gid, mtime=mtime, xattr=xattr, data=[('seg', size, i + 1)] if size else [], sync=True)]
             pxattr = {'user.old': b'x'} if rng.random() < 0.5 else {}
+            if xattr and rng.random() < 0.6:
+                pxattr.update({k: b'stale-' + v for k, v in list(xattr.items())[:2]})      # same names, stale values (a re-copy after the attributes changed)
             if prior == 'existing':
                 tree += [dict(p='D', k='dir', mode=0o755), dict(p='D/f', k='file', mode=pmode, uid=3, gid=4, mtime=12345, xattr=pxattr, data=[('seg', 77, 9)])]
             for sub in ('S', 'D'):
@@ -42,6 +44,15 @@ def run(ctx):
             argv += [f for f, on in (('--ownership', flags['ownership']), ('--no-perms', flags['no_perms']), ('--no-timestamps', flags['no_timestamps']), ('--fsync', flags['fsync'])) if on]
             argv += ['S', 'D']
             plan = [f'sched {ctx.seed * 17 + i} {rng.choice(["pct", "delay"])} {rng.randint(1, 3)}'] if i % 3 == 1 else None   # the last block may finish on any worker
+            if i in (1, 3, 5, 7):
+                # corpus: a multi-block file whose FIRST block finishes long after the block that ends at EOF (stalled by address)
+                size, driver = 30000, 'parblock'
+                tree[1]['data'] = [('seg', size, i + 1)]
+                argv = ['-r', '-T', '--driver', driver, '--workers', '4', '--block-size', '4096'] + [a for a in argv if a in ('--ownership', '--no-perms', '--no-timestamps', '--fsync')] + ['S', 'D']
+                for sub in ('S', 'D'):
+                    shutil.rmtree(os.path.join(root, sub), ignore_errors=True)
+                scen.materialise(root, tree)
+                plan = [f'stallo copy_file_range D/f {0 if i < 5 else 4096} 300000']
             r = scen.run_xcp(root, argv, umask=umask, timeout=60, plan=plan)
             for k, v in flags.items():
                 if v: ctx.count('flag.' + k)
